@@ -57,7 +57,36 @@ def canon_md(md):
 ROUTES_OBS = ["tuple"] * 5 + ["by-id"] * 4 + ["json"]
 
 
+def canon_group(g):
+    return None if g is None else {str(k): vtext(list(v) if isinstance(v, tuple) else v) for k, v in g.items()}
+
+
 def tobs(t, route="tuple", rng=None):
+    """table observation + what the table carries besides IDs, grid, type and per-ID metadata"""
+    o = _tobs(t, route, rng)
+    o["extra"] = {"table_id": t.table_id, "dtype": str(t.dtype),
+                  "ogmd": canon_group(t.group_metadata(axis="observation")),
+                  "sgmd": canon_group(t.group_metadata(axis="sample"))}
+    return o
+
+
+GROUP_MD = [{"tree": ("newick", "((O1:0.3,O2:0.4):0.1,O3:0.5);")}, {"category": ("newick", "(S1:0.3,S2:0.4);")},
+            {"graph": ("json", "{}"), "tree": ("newick", "(a,b);")}, {"50%": ("text", "x%sy")}]
+
+
+def dress(ctx, t):
+    """a share of the receivers carries group metadata on one or both axes"""
+    rng = ctx.rng
+    if rng.random() < 0.3:
+        for ax in rng.choice([["sample"], ["observation"], ["sample", "observation"]]):
+            try:
+                t.add_group_metadata(dict(rng.choice(GROUP_MD)), axis=ax)
+                ctx.count("group-metadata on " + ax)
+            except Exception as e:  # noqa: BLE001
+                ctx.count("add_group_metadata raised " + type(e).__name__)
+
+
+def _tobs(t, route="tuple", rng=None):
     """observable content of a table (own version: metadata through vtext).
     route 'tuple': ids()/metadata()/matrix; 'by-id': every ID asked through the table's own lookups
     (exists, index, metadata(id), data(id)) in random order; 'json': what to_json exports, re-read."""
@@ -67,7 +96,7 @@ def tobs(t, route="tuple", rng=None):
     if route == "json":
         from biom import Table
         t2 = Table.from_json(json.loads(t.to_json("c18")))
-        o = tobs(t2)
+        o = _tobs(t2)
         o["type"] = t.type
         return o
     if route == "by-id":
@@ -85,9 +114,13 @@ def tobs(t, route="tuple", rng=None):
             shown = [str(i) for i in ids]
             for j in order:
                 # the table's own index must place the ID where ids() shows it
-                if not t.exists(ids[j], axis=ax) or t.index(ids[j], axis=ax) != j:
-                    shown[j] = "?index:" + shown[j]
-                ent[j] = canon_entry(t.metadata(ids[j], axis=ax)) if has_md else None
+                try:
+                    if not t.exists(ids[j], axis=ax) or t.index(ids[j], axis=ax) != j:
+                        shown[j] = "?index:" + shown[j]
+                    ent[j] = canon_entry(t.metadata(ids[j], axis=ax)) if has_md else None
+                except Exception as e:  # noqa: BLE001  (a lookup that refuses an ID the table shows)
+                    shown[j] = "?lookup raised %s:%s" % (type(e).__name__, shown[j])
+                    ent[j] = {} if has_md else None
             o[kid] = shown
             o[kmd] = ent if has_md else None
         obs_ids = list(t.ids(axis="observation"))
@@ -96,8 +129,13 @@ def tobs(t, route="tuple", rng=None):
             rng.shuffle(order)
         rows = [None] * len(obs_ids)
         for j in order:
-            rows[j] = [core.frac(x) for x in np.asarray(t.data(obs_ids[j], axis="observation", dense=True)).ravel()] \
-                if t.shape[1] > 0 else []
+            try:
+                rows[j] = [core.frac(x) for x in np.asarray(t.data(obs_ids[j], axis="observation", dense=True)).ravel()] \
+                    if t.shape[1] > 0 else []
+            except Exception as e:  # noqa: BLE001
+                rows[j] = ["0"] * int(t.shape[1])
+                o["obs"] = [("?data raised %s:%s" % (type(e).__name__, x) if k == j else x)
+                            for k, x in enumerate(o["obs"])]
         o["rows"] = rows
         return o
     m = t.matrix_data
@@ -155,8 +193,36 @@ def md_is_defaulting(t):
 
 # ----------------------------------------------------------------------------- tables and histories
 KEYS = ["grp", "na/me", "depth", "taxonomy"]
-NEWKEYS = ["pH", "Days", "k é", "x;y", ""]
-HISTORIES = ["none", "filter", "filter_inplace", "sort_order", "transpose", "sort+filter", "transpose+sort"]
+NEWKEYS = ["pH", "Days", "k é", "x;y", "", "50%", "%(id)s", "id", "matrix_type", "S1", "caf\u00e9", "cafe\u0301"]
+HISTORIES = ["none", "filter", "filter_inplace", "sort_order", "transpose", "sort+filter", "transpose+sort",
+             "rename", "rename_inplace", "rename+sort", "filter_inplace+rename_inplace", "rename+rename_inplace"]
+
+
+def rename_overlapping(rng, t, ax, inplace):
+    """update_ids whose new names overlap the old ones (swap, rotation, shift, reversal) or are fresh"""
+    ids = [str(i) for i in t.ids(axis=ax)]
+    n = len(ids)
+    kind = rng.choice(["swap", "rotate", "shift", "reverse", "fresh", "partial"]) if n >= 2 else "fresh"
+    if kind == "swap":
+        i, j = rng.sample(range(n), 2)
+        m = {ids[i]: ids[j], ids[j]: ids[i]}
+    elif kind == "rotate":
+        k = rng.randint(1, n - 1)
+        m = {ids[i]: ids[(i + k) % n] for i in range(n)}
+    elif kind == "shift":
+        k = rng.randint(2, n)
+        m = {ids[i]: ids[i + 1] for i in range(k - 1)}
+        m[ids[k - 1]] = ids[k - 1] + "_new" if k == n else ids[0] + "_was"
+        if k < n:
+            m = {ids[i]: ids[i + 1] for i in range(k - 1)}
+            m[ids[k - 1]] = ids[0] + "_was"
+    elif kind == "reverse":
+        m = {ids[i]: ids[n - 1 - i] for i in range(n)}
+    elif kind == "partial":
+        m = {ids[0]: ids[0] + "_p"}
+    else:
+        m = {i: i + "_r" for i in ids}
+    return t.update_ids(m, axis=ax, strict=False, inplace=inplace), kind
 
 
 def gen_table(rng, quick=True):
@@ -178,11 +244,29 @@ def gen_table(rng, quick=True):
                 cand = twins.pop()
                 if cand not in ids:
                     ids[j] = cand
+    c = rng.random()
+    if c < 0.12:
+        # canonically equivalent but distinct spellings on ONE axis, the same text on BOTH axes
+        tw = core.twin_ids(rng, 2)
+        for key in ("samp", "obs"):
+            ids = spec[key]
+            for j, x in enumerate(tw[:len(ids)]):
+                if x not in ids:
+                    ids[j] = x
+    elif c < 0.2 and spec["obs"] and spec["samp"]:
+        shared = rng.choice(core.NASTY_TEXTS + ["id", "S1"])
+        if shared not in spec["obs"] and shared not in spec["samp"]:
+            spec["obs"][0] = shared
+            spec["samp"][-1] = shared
     route = rng.choice(core.ROUTES)
     t = core.build(spec, route, rng)
     hist = rng.choice(HISTORIES)
     for step in hist.split("+"):
-        t = apply_history(rng, t, step)
+        try:
+            t = apply_history(rng, t, step)
+        except Exception as e:  # noqa: BLE001  (a prior step that refuses is not this property's call)
+            hist += "!%s raised %s" % (step, type(e).__name__)
+            break
     return t, route, hist
 
 
@@ -193,6 +277,8 @@ def apply_history(rng, t, step):
         return t.transpose()
     ax = rng.choice(["sample", "observation"])
     ids = list(t.ids(axis=ax))
+    if step in ("rename", "rename_inplace"):
+        return rename_overlapping(rng, t, ax, step == "rename_inplace")[0]
     if step == "sort_order":
         rng.shuffle(ids)
         return t.sort_order(ids, axis=ax)
@@ -211,7 +297,7 @@ def apply_history(rng, t, step):
 DERIVE = ["sort_order:sample", "sort_order:observation", "sort:sample", "sort:observation", "transpose",
           "filter(inplace=False):sample", "filter(inplace=False):observation", "Table(src.metadata())", "copy",
           "partition:sample", "partition:observation", "collapse:sample", "collapse:observation",
-          "concat:sample", "concat:observation", "merge"]
+          "concat:sample", "concat:observation", "merge", "update_ids:sample", "update_ids:observation"]
 
 
 def derive(rng, src, how):
@@ -225,6 +311,8 @@ def derive(rng, src, how):
     if kind == "Table(src.metadata())":
         return Table(src.matrix_data.copy(), src.ids(axis="observation"), src.ids(),
                      src.metadata(axis="observation"), src.metadata(), type=src.type)
+    if kind == "update_ids":
+        return rename_overlapping(rng, src, ax, False)[0]
     if kind in ("partition", "collapse", "concat", "merge"):
         try:
             return derive_multi(rng, src, kind, ax)
@@ -261,17 +349,24 @@ def derive_multi(rng, src, kind, ax):
     raise ValueError(kind)
 
 
+def derive_safe(rng, src, how):
+    try:
+        return derive(rng, src, how)
+    except Exception:  # noqa: BLE001  (the derivation itself refusing is another property's business)
+        return src.copy()
+
+
 def gen_live(rng, src):
     """tables that are alive together: the source, one or two tables derived from it (the second
     possibly from the first).  Returns [(label, table)], index of the receiver of the update."""
     live = [("source", src)]
     h1 = rng.choice(DERIVE)
-    d1 = derive(rng, src, h1)
+    d1 = derive_safe(rng, src, h1)
     live.append(("derived:" + h1, d1))
     if rng.random() < 0.4:
         h2 = rng.choice(DERIVE)
         base = rng.choice([0, 1])
-        live.append(("derived:%s of %s" % (h2, live[base][0]), derive(rng, live[base][1], h2)))
+        live.append(("derived:%s of %s" % (h2, live[base][0]), derive_safe(rng, live[base][1], h2)))
     return live, rng.randrange(len(live))
 
 
@@ -287,7 +382,15 @@ def finish_others(snaps, others, rng=None):
 
 
 def gen_value(rng):
+    import numpy as np
     c = rng.random()
+    if c < 0.12:
+        # python-equal but type-different values, numpy scalars as HDF5 hands them back, range ends, nesting
+        return rng.choice([True, False, 1, 1.0, 0, -0.0, np.int64(3), np.float64(0.5), np.bool_(True),
+                           2 ** 24 + 1, 2 ** 53 + 1, 5e-324, 0.1, 1e300, {"a": {"b": ["x", "y"]}, "n": 1},
+                           [["deep", ["er"]], []]])
+    if c < 0.2:
+        return rng.choice(core.NASTY_TEXTS + [a for p in core.NORMALISATION_PAIRS for a in p])
     if c < 0.4:
         return rng.choice(["a", "b", "v 1", "", "é", 'q"t', "x\ty", "l1\nl2"])
     if c < 0.6:
@@ -315,6 +418,10 @@ def gen_mapping(rng, t, axis):
         longest = max([len(i) for i in ids], default=1)
         pool_x = ["zz1", "zz2", "S?", "O?", "", "L" * (longest + 7)] + tricky + [i + "\n" for i in ids[:1]] + \
                  [i + "é" for i in ids[:1]]
+        import unicodedata
+        for i in ids[:3]:
+            for form in ("NFC", "NFD"):
+                pool_x.append(unicodedata.normalize(form, i))
         extra = rng.sample(pool_x, min(len(pool_x), rng.randint(1, 4)))
         extra = [e for e in extra if e not in ids]
     keys_here = set()
@@ -335,6 +442,7 @@ def gen_mapping(rng, t, axis):
 
 def check_add(ctx, t, m, axis, tags=(), others=()):
     from biom.exception import UnknownAxisError  # noqa: F401
+    dress(ctx, t)
     before = tobs(t)
     snaps = snap_others(others)
     mapping = [[i, canon_entry(e)] for i, e in m.items()]
@@ -356,7 +464,8 @@ def check_add(ctx, t, m, axis, tags=(), others=()):
     route = ctx.rng.choice(ROUTES_OBS)
     ctx.count("observed-through:" + route)
     after = tobs(t, route, ctx.rng)
-    case = {"op": "add", "table": before, "mapping": mapping, "axis": axis, "after": after, "error": err}
+    case = {"op": "add", "table": before, "mapping": mapping, "axis": axis, "after": after, "error": err,
+            "mapping_after": [[i, canon_entry(e)] for i, e in arg.items()]}
     if others:
         case["others"] = finish_others(snaps, others, ctx.rng)
     overlap = sum(1 for i, _ in mapping if i in (before["samp"] if axis == "sample" else before["obs"]))
@@ -373,6 +482,7 @@ def check_add(ctx, t, m, axis, tags=(), others=()):
 
 
 def check_del(ctx, t, keys, axis, tags=(), others=()):
+    dress(ctx, t)
     before = tobs(t)
     snaps = snap_others(others)
     pre_reads(ctx, t, ctx.rng, tags)
@@ -391,6 +501,9 @@ def check_del(ctx, t, keys, axis, tags=(), others=()):
                     arg = tuple(arg)
                 elif isinstance(arg, list) and c < 0.3:
                     arg = set(arg)
+                elif isinstance(arg, list) and arg and c < 0.4:
+                    import numpy as np
+                    arg = np.array(arg, dtype=object)
                 if ctx.rng.random() < 0.3:
                     t.del_metadata(arg, axis)
                 else:
@@ -451,7 +564,8 @@ def report(ctx, case, r, tags):
 WS_LIST = [" ", "  ", "\x0b", "\x0c", " ", "\r", " 　"]
 WS_FILE = [" ", "  ", "\x0c", " "]
 COLNAMES = ["A", "B c", "taxonomy", "pH", "Days", "x;y", "é", "K|1", "long name"]
-TEXTS = ["x", "v 1", "a;b", "a; b ;c", "k__A; p__b", "a|b;c", "x;y|z", "p#q", "é", "日本", "1", "-", "a,b", "N/A",
+TEXTS = ["50%", "otu_%s", "%(id)s", "a'b", "ls\u2028x", "nel\u0085x", "{brace}", "caf\u00e9", "cafe\u0301",
+         "x", "v 1", "a;b", "a; b ;c", "k__A; p__b", "a|b;c", "x;y|z", "p#q", "é", "日本", "1", "-", "a,b", "N/A",
          "s;", "|", "a b c"]
 INTS = ["12", "-3", "+7", "1_000", "007", "0", "x1", "1.0", "1__0", "_1", "3_", "+", "- 1", "1e3"]
 FLOATS = ["1.5", "-0.25", "2e3", "1_0.5", ".5", "5.", "1E2", "inf", "-Infinity", "nan", "+3", "0.125e1", "12.5e-1",
@@ -590,7 +704,11 @@ def check_parse(ctx, gram, lines, opts, header, proc, how="list", tags=()):
     hdr_arg = None
     if header is not None:
         hdr_arg = tuple(header) if (header and ctx.rng.random() < 0.3) else list(header)
-    kw = dict(strip_quotes=opts["strip_quotes"], suppress_stripping=opts["suppress"],
+    import numpy as np
+
+    def flag(b):
+        return ctx.rng.choice([b, b, int(b), np.bool_(b)])
+    kw = dict(strip_quotes=flag(opts["strip_quotes"]), suppress_stripping=flag(opts["suppress"]),
               header=hdr_arg,
               process_fns=(process_fns if (process_fns or how != "list") else None))
     if opts["strip_quotes"] and not opts["suppress"] and ctx.rng.random() < 0.5:
@@ -815,6 +933,7 @@ def check_cli_worker(ctx, t, files, opts, facts, tags=(), others=()):
     """_add_metadata in-process on file objects (what the command calls)"""
     from biom.cli.metadata_adder import _add_metadata
     import io
+    dress(ctx, t)
     before = tobs(t)
     snaps = snap_others(others)
     err = None
@@ -878,6 +997,9 @@ def check_cli_command(ctx, t, files, opts, facts, out_json, in_fmt="json", tags=
     finally:
         shutil.rmtree(d, ignore_errors=True)
     fmt = "json" if out_json else "hdf5"
+    # what a file keeps of table id / group metadata / dtype is the formats' business (C01, C02)
+    before = dict(before, extra=None)
+    after = dict(after, extra=None)
     case = cli_request(before, files, opts, after, err)
     case["_out"] = fmt
     case["via_file"] = True
@@ -969,11 +1091,13 @@ def run_wide(ctx, n):
     rng = ctx.rng
     for i in range(n):
         ax = ["sample", "observation"][i % 2]
-        spec = core.wide_spec(rng, axis=ax, md=(i % 4 < 2))
+        big = (i == 1)                  # one case above 512 IDs (metadata-free: the driver's lookups are quadratic)
+        spec = core.wide_spec(rng, axis=ax, md=(i % 4 < 2 and not big), n_axis=(rng.choice([513, 520]) if big else None),
+                              other=(2 if big else None))
         t = core.build(spec, rng.choice(["dense", "csr", "csc"]), rng)
         src = t
         if i % 3 == 0:
-            t = derive(rng, src, "sort_order:" + ax)
+            t = derive_safe(rng, src, "sort_order:" + ax)
         m, mode, _ = gen_mapping(rng, t, ax)
         check_add(ctx, t, m, ax, ("wide",), [("source", src)] if t is not src else [])
         ks = sorted({k for e in (t.metadata(axis=ax) or []) for k in e})[:2]
@@ -1062,7 +1186,7 @@ def run(ctx):
     try:
         first = state_cases(ctx, "early")
         fixed_cases(ctx)
-        n_tab = 1300 if quick else 900
+        n_tab = 1000 if quick else 900
         for i in range(n_tab):
             t, route, hist = gen_table(rng, quick)
             ctx.count("history=" + hist)
@@ -1106,12 +1230,12 @@ def run(ctx):
                 if c < 0.4:
                     how = rng.choice(DERIVE)
                     ctx.count("live:del on derived:" + how.split(":")[0])
-                    return derive(rng, ta, how), [("source", ta)] + list(others)
+                    return derive_safe(rng, ta, how), [("source", ta)] + list(others)
                 if c < 0.6:
                     base = ta.copy()
                     how = rng.choice(DERIVE)
                     ctx.count("live:del on source of:" + how.split(":")[0])
-                    return base, [("derived:" + how, derive(rng, base, how))]
+                    return base, [("derived:" + how, derive_safe(rng, base, how))]
                 return ta.copy(), [("source (deep-copied from)", ta)]
             for ks in picks:
                 dax = rng.choice(["sample", "observation", "whole", "whole", "bogus"]) if quick else None
@@ -1122,9 +1246,9 @@ def run(ctx):
                 rcv, oth = del_receiver()
                 check_del(ctx, rcv, rng.choice([None, "default"]),
                           rng.choice(["sample", "observation", "whole", "bogus"]), (route, hist), oth)
-        run_parse_stream(ctx, 4000 if quick else 15000)
+        run_parse_stream(ctx, 3000 if quick else 15000)
         run_raw_stream(ctx, 800 if quick else 2500)
-        n_cli = 700 if quick else 1200
+        n_cli = 520 if quick else 1200
         for i in range(n_cli):
             friendly = (i % 4 == 3)
             if friendly:
@@ -1135,9 +1259,9 @@ def run(ctx):
             files, opts, facts = gen_cli_case(rng, t, friendly=friendly)
             if rng.random() < 0.5:
                 how = rng.choice(DERIVE)
-                rcv = derive(rng, t, how)
+                rcv = derive_safe(rng, t, how)
                 if how.startswith("filter") or how == "transpose":
-                    rcv = derive(rng, t, "Table(src.metadata())")      # keep the IDs the files were written for
+                    rcv = derive_safe(rng, t, "Table(src.metadata())")      # keep the IDs the files were written for
                 check_cli_worker(ctx, rcv, files, opts, facts, (route, hist), [("source", t)])
             else:
                 check_cli_worker(ctx, t.copy(), files, opts, facts, (route, hist))
@@ -1145,7 +1269,7 @@ def run(ctx):
                 out_json = rng.random() < (0.2 if friendly else 0.7)
                 in_fmt = "json" if (rng.random() < 0.7 or not hdf5_faithful(t)) else "hdf5"
                 check_cli_command(ctx, t.copy(), files, opts, facts, out_json, in_fmt, (route, hist))
-        run_wide(ctx, 6 if quick else 12)
+        run_wide(ctx, 4 if quick else 12)
         if state_cases(ctx, "late") != first:
             ctx.diverge({"probe": DEFAULT_PROBE[0]}, "the default call answers differently at the end of the run")
     finally:
@@ -1181,6 +1305,17 @@ def _parse_value(s, i):
         tok = m.group(1)
         v = float(tok) if tok in ("inf", "-inf", "nan") else float(Fraction(tok))
         return v, m.end()
+    if s[i] == "{":
+        out = {}
+        i += 1
+        while s[i] != "}":
+            k, i = _parse_value(s, i)
+            i += 2
+            v, i = _parse_value(s, i)
+            out[k] = v
+            if s.startswith(", ", i):
+                i += 2
+        return out, i + 1
     if s[i] == "[":
         out = []
         i += 1
@@ -1202,7 +1337,12 @@ def table_from_obs(o):
         return None if x is None else [{k: unvtext(v) for k, v in e.items()} for e in x]
     arr = np.array([[float(core.unfrac(v)) for v in r] for r in o["rows"]], dtype=float).reshape(
         len(o["obs"]), len(o["samp"]))
-    return Table(arr, o["obs"], o["samp"], md(o["omd"]), md(o["smd"]), type=o.get("type"))
+    t = Table(arr, o["obs"], o["samp"], md(o["omd"]), md(o["smd"]), type=o.get("type"))
+    for ax, k in (("observation", "ogmd"), ("sample", "sgmd")):
+        g = (o.get("extra") or {}).get(k)
+        if g:
+            t.add_group_metadata({kk: tuple(unvtext(v)) for kk, v in g.items()}, axis=ax)
+    return t
 
 
 def replay(ctx, rec):
